@@ -5,7 +5,7 @@ From Coq Require Import List ZArith String Bool Permutation Lia.
 From SCC Require Import Base.Sexp Lang.SynUtil Lang.FunSyn Model.Check Sem.FunTyping
   Proof.FunInd Proof.FunEq Proof.CheckAnn Proof.TypingReject Proof.CheckBuild Proof.CheckMono Proof.CheckMonoSound
   Proof.CheckMonoProg Proof.CheckMonoComplete Proof.CheckMonoProgC
-  Proof.PrintInj Proof.CheckPoly Proof.CheckPolySound Proof.CheckPolyProg Proof.CheckPolyComplete.
+  Proof.PrintInj Proof.CheckPoly Proof.CheckPolySound Proof.CheckPolyProg Proof.CheckPolyComplete Proof.CheckDecls.
 Import ListNotations.
 Open Scope list_scope.
 
@@ -41,18 +41,30 @@ Section DefsPC.
       exists st2. splits; eauto using same_templates_trans.
   Qed.
 
+  Lemma main_ret_check_pok : forall d st, main_ret_ok d = true -> tables ts fs st -> pinv ts st ->
+    exists st', main_ret_check d st = COk st' /\ pinv ts st' /\ same_templates st st'.
+  Proof.
+    intros d st Hm Tb I. unfold main_ret_check. unfold main_ret_ok in Hm.
+    destruct (String.eqb (fdname d) "main").
+    - apply fty_eqb_eq in Hm. rewrite Hm.
+      destruct (check_equality_ok ts fs W FI64 st eq_refl Tb I) as [st' [H [I' [S _]]]]. eauto.
+    - exists st. auto using same_templates_refl.
+  Qed.
+
   Lemma def_check_pok : forall d st, def_ok ts fs d = true -> term_names_ok (fdbody d) = true ->
     tables ts fs st -> pinv ts st ->
     exists d' st', def_check_gen true d st = COk (d', st') /\ pinv ts st' /\ same_templates st st'.
   Proof.
     intros d st Hok Hmb Tb I. unfold def_ok in Hok.
     apply andb_true_iff in Hok. destruct Hok as [Hok Hk]. apply andb_true_iff in Hok. destruct Hok as [Hok Hwr].
-    apply andb_true_iff in Hok. destruct Hok as [Hnd Hwc].
+    apply andb_true_iff in Hok. destruct Hok as [Hnd Hwc]. apply andb_true_iff in Hnd. destruct Hnd as [Hmain Hnd].
     assert (Hrun : exists d' st', def_check_gen true d st = COk (d', st')).
     { unfold def_check_gen. unfold ctx_no_dups. rewrite nodup_ctx_no_dups_go; [|assumption|intros ? ? []]. simpl.
       destruct (ctx_check_pok _ st Hwc Tb I) as [st1 [H1 [I1 S1]]]. rewrite H1. simpl.
-      destruct (ty_check_ok ts fs W _ st1 Hwr (tables_same _ _ _ _ Tb S1) I1) as [st2 [H2 [I2 [S2 _]]]].
-      rewrite H2. simpl. assert (S02 : same_templates st st2) by eauto using same_templates_trans.
+      destruct (ty_check_ok ts fs W _ st1 Hwr (tables_same _ _ _ _ Tb S1) I1) as [st2a [H2 [I2a [S2a _]]]].
+      rewrite H2. simpl. assert (S02a : same_templates st st2a) by eauto using same_templates_trans.
+      destruct (main_ret_check_pok d st2a Hmain (tables_same _ _ _ _ Tb S02a) I2a) as [st2 [H2m [I2 S2]]].
+      rewrite H2m. simpl. assert (S02 : same_templates st st2) by eauto using same_templates_trans.
       destruct (check_term_pcomplete ts fs W WF (fdbody d) st2 (fdctx d) (fdret d) Hmb (tables_same _ _ _ _ Tb S02) I2 Hwc Hwr Hk)
         as [b' [st3 H3]].
       rewrite H3. simpl. eauto. }
@@ -122,7 +134,7 @@ Proof.
   pose proof (poly_world_of_prog p Hm Hn (fun td Hin => proj1 (Hps td Hin))) as W.
   pose proof (pwf_world_of_prog p Ht0) as WF.
   unfold check, check_gen. rewrite Hb. simpl. unfold check_with_table_gen.
-  rewrite (check_type_decls_ok_conv _ _ st (fpdecls p) Tb); [|intros td Hin; destruct (Hps td Hin) as [? [? ?]]; auto]. simpl.
+  rewrite (check_type_decls_ok_conv _ _ st (fpdecls p) Tb); [|intros td Hin; destruct (Hps td Hin) as [? [? ?]]; auto|intros td Hin; destruct (Hps td Hin) as [? [? ?]]; auto]. simpl.
   rewrite defs_of_fdefs.
   destruct (check_defs_pok _ _ W WF (fdefs (fpdecls p)) st) as [ds' [st1 [H1 I1]]]; [|exact Tb|apply pinv_start; assumption|].
   { intros d Hin. rewrite forallb_forall in Hdefs. split; [auto|]. eapply names_def_body; eassumption. }
